@@ -62,6 +62,7 @@ def obj_specs():
         ('mutual-nonlin/real', with_w('mutual-nonlin', 1, vals), 'real', False),
         ('late-first-edge/viterbi', with_w('late-first-edge', 1, vals), 'viterbi', False),
         ('diag-growth/real/grad', with_w('diag-growth', 2, vals), 'real', True),
+        ('quad-ext/log/grad', with_w('quad-ext', 2, vals), 'log', True),        # start symbol of arity 1: start assignments can be out of range
     ]
 
 
@@ -134,6 +135,11 @@ def snap_hrg(h):
             tuple(snap_graph(r.rhs) for r in h.all_rules()))
 
 
+def snap_global():
+    import torch
+    return (('grad_enabled', torch.is_grad_enabled()), ('default_dtype', str(torch.get_default_dtype())), ('recursionlimit', sys.getrecursionlimit()))
+
+
 def snap_fgg(g):
     doms = tuple((k, type(d).__name__, repr(d.to_json()), id(d)) for k, d in g.domains.items())
     facs = tuple((k, id(f), tuple(id(d) for d in f.domains), snap_pt(f.weights), id(f.weights)) for k, f in g.factors.items())
@@ -154,8 +160,9 @@ def queries(spec, g):
     lin = (not rec) or is_linear(ir)
 
     def tens(t):
-        d = t.to_dense().detach()
-        return (str(d.dtype), tuple(d.shape), d.numpy().tobytes())
+        dd = t.to_dense()
+        d = dd.detach()
+        return (str(d.dtype), tuple(d.shape), d.numpy().tobytes(), bool(dd.requires_grad))
     sems = [(sem, S)]
     if sem == 'real':
         sems.append(('log', IR.semiring('log', 'float64')))      # the same numbers read as log-weights: still a legal query
@@ -174,6 +181,13 @@ def queries(spec, g):
                 d = fggs.viterbi(o['g'], ea, semiring=IR.semiring('viterbi', 'float64'))
                 return deriv_key(o['g'], d)
             qs.append(('viterbi%r' % (ea,), vit))
+        # a query that fails (start assignment out of range / of the wrong length); later queries must not notice
+        bad = tuple(n for n in shape) if shape else (0,)
+        qs.append(('viterbi%r [invalid assignment]' % (bad,), lambda o, bad=bad: deriv_key(o['g'], fggs.viterbi(o['g'], bad, semiring=IR.semiring('viterbi', 'float64')))))
+    # queries whose semiring does not fit the weights' dtype (they may fail; the grammar must be left alone)
+    if sem != 'bool':
+        qs.append(('sum_product(fixed-point,bool semiring on float weights)', lambda o: tens(fggs.sum_product(o['g'], method='fixed-point', semiring=IR.semiring('bool', 'float64')))))
+        qs.append(('sum_products(float32 semiring on float64 weights)', lambda o: tuple((k.name, tens(v)) for k, v in fggs.sum_products(o['g'], semiring=IR.semiring(sem, 'float32'), tol=1e-6, kmax=300).items())))
     for m in ('min_fill', 'quickbb', 'acb'):
         qs.append(('factorize_rule(%s)' % m, lambda o, m=m: tuple(tuple((lsig(r.lhs), canon.canon_graph(r.rhs)) for r in fggs.factorize_rule(rule, method=m)) for rule in o['g'].all_rules())))
         qs.append(('factorize_hrg(%s)' % m, lambda o, m=m: hrg_key(fggs.factorize_hrg(o['g'], method=m))))
@@ -273,7 +287,7 @@ def one_history(oi, hist, r, case):
     last = None
     names = [qs[i][0] for i in hist]
     for step, qi in enumerate(hist):
-        before = (snap_fgg(g), snap_hrg(o['h']))
+        before = (snap_fgg(g), snap_hrg(o['h']), snap_global())
         try:
             res = ('ok', qs[qi][1](o))
         except RecursionError:
@@ -281,7 +295,12 @@ def one_history(oi, hist, r, case):
         except Exception as e:
             res = ('exc', type(e).__name__ + ':' + str(e)[:80])
         r.trans += 1
-        after = (snap_fgg(g), snap_hrg(o['h']))
+        after = (snap_fgg(g), snap_hrg(o['h']), snap_global())
+        if after[2] != before[2]:
+            r.bad('global-state-changed', 'fggs.' + qs[qi][0].split('(')[0], 'query', 'object %s: query %s (history %r) changed process-wide state %r -> %r' % (spec[0], qs[qi][0], names[:step + 1], before[2], after[2]), case, key)
+            import torch
+            torch.set_grad_enabled(True)
+            return
         if after != before:
             what = diff_fields(before, after)
             r.bad('argument-mutated', 'fggs.' + qs[qi][0].split('(')[0], 'query', 'object %s: query %s (history %r) changed its arguments: %s' % (spec[0], qs[qi][0], names[:step + 1], what), case, key)
@@ -307,7 +326,7 @@ def short(x):
 
 def diff_fields(a, b):
     out = []
-    (fa, ha), (fb, hb) = a, b
+    (fa, ha), (fb, hb) = a[:2], b[:2]
     if fa[0] != fb[0]:
         out.append('grammar structure / rule table / label tables')
     if fa[1] != fb[1]:
